@@ -305,6 +305,7 @@ func runC05(r *Run) {
 	effectIsFirstWrite(r)
 	flushAfterValidation(r)
 	handlerRunsOnBranch(r)
+	flushSurvivesRevert(r)
 
 	// ---------- R5 ----------
 	r.Rule("R5", "PATH.flush-skip: StateDB.Commit runs in the middle of a transaction (before every precompile dispatch), so 'nothing to write' for a dirty slot is judged against what an earlier flush of this transaction wrote (transientStorage) whenever such a value exists, and against the originally loaded value only when it does not: the comparison with originStorage is reachable only over the not-found edge of the transientStorage lookup, and each SetState is followed by recording the value in transientStorage — otherwise a slot flushed inside a frame that later reverts keeps the reverted value in the store")
@@ -642,6 +643,64 @@ func handlerRunsOnBranch(r *Run) {
 			"the precompile's Run does not confine its handlers to a state branch that is written only on success ("+bad+"): a failed call can leave part of an SDK message in the store", P.witness(append(w1, w2...))...)
 	}
 	r.Floor("R9", "wired precompiles with Cosmos-side effects", n, 3)
+}
+
+// flushSurvivesRevert (C05 R10): what a mid-transaction Commit wrote is rewritten by the next Commit.
+func flushSurvivesRevert(r *Run) {
+	P := r.P
+	r.Rule("R10", "FLOW.flush-survives-revert: every stateful precompile flushes the StateDB into the SDK context before it runs (StateDB.Commit in the middle of a transaction; queries included). Commit writes the journal-dirty addresses only, and reverting a frame removes an address from the dirty set when all its changes were made inside that frame. So StateDB.Commit must remember the addresses it wrote (a container held by the StateDB, updated in Commit) and iterate them again next time, whatever the journal says — otherwise the writes of a frame that called any precompile and then reverted stay in the store: storage and payments of a reverted frame are permanent, and an account that is still dirty for another reason is 'restored' by minting")
+	cm, ok := P.FnOK("(*x/evm/statedb.StateDB).Commit")
+	if !ok {
+		r.Bad("R10", "anchor/StateDB.Commit", "", "not found")
+		return
+	}
+	// is Commit ever called mid-transaction? (precompile Run methods)
+	mid := 0
+	for _, m := range wiredPrecompiles(r) {
+		if m.Run != nil && len(findCalls(m.Run, func(ci CallInfo) bool { return ci.Name == "Commit" && ci.Recv == "StateDB" })) > 0 {
+			mid++
+		}
+	}
+	if mid == 0 {
+		r.OK("R10", fnID(cm)+"#flush-survives-revert", P.Pos(fnPos(cm)), "no precompile flushes mid-transaction")
+		return
+	}
+	// fields of StateDB that Commit updates with a map insert / append (what it remembers) …
+	remembered := map[string]bool{}
+	eachInstr(cm, func(in ssa.Instruction) {
+		switch x := in.(type) {
+		case *ssa.MapUpdate:
+			if u, ok := x.Map.(*ssa.UnOp); ok {
+				if sn, f, ok := fieldOfAddr(u.X); ok && sn == "StateDB" {
+					remembered[f] = true
+				}
+			}
+		case *ssa.Store:
+			if sn, f, ok := fieldOfAddr(x.Addr); ok && sn == "StateDB" {
+				if c, isC := x.Val.(*ssa.Call); isC {
+					if b, isB := c.Call.Value.(*ssa.Builtin); isB && b.Name() == "append" {
+						remembered[f] = true
+					}
+				}
+			}
+		}
+	})
+	// … and that the set of addresses it iterates depends on
+	iterates := false
+	eachInstr(cm, func(in ssa.Instruction) {
+		c, ok := in.(*ssa.Call)
+		if !ok || callInfo(c).Name != "sortedDirties" {
+			return
+		}
+		sl := backSlice(c.Call.Args...)
+		for f := range remembered {
+			if sl.HasField("StateDB", f) {
+				iterates = true
+			}
+		}
+	})
+	r.Check(iterates, "R10", fnID(cm)+"#flush-survives-revert", P.Pos(fnPos(cm)), "Commit re-visits the addresses earlier Commits wrote",
+		fmt.Sprintf("%d precompile Run method(s) flush the StateDB mid-transaction, but Commit iterates the journal's dirty set only and remembers nothing of what it wrote: a frame that writes state, calls any precompile (a query suffices) and reverts leaves its writes in the store — demonstrated: sstore + payment in a reverted frame persist and the supply grows by the payment", mid))
 }
 
 // oogIsFailure (C05 R6).
